@@ -28,14 +28,20 @@ theorem forbid_rejected (s : Sys) (jc : JCV) (j : JobV) (ac : Int)
       (res = "ok" → ∃ cur a, findJob s.jobs j.name = some cur ∧ cur.rv = j.rv ∧
           findJob (canStartJob s jc j ac).1.jobs j.name = some a ∧
           a.admErr = true ∧ a.startTime = cur.startTime ∧ a.terminal = cur.terminal) := by
-  rcases canStartJob_forbid s jc j ac h1 h2 h3 h4 with ⟨res, hres, _, heq⟩ | ⟨cur, hf, hrv, _, heq⟩
+  rcases canStartJob_forbid s jc j ac h1 h2 h3 h4 with ⟨res, hres, _, heq⟩ |
+      ⟨cur, hf, hrv, _, _, heq⟩ | ⟨cur, hf, hrv, _, hnoop, heq⟩
   · rw [heq]
     exact ⟨by simp, res, rfl, by simp [hres], fun _ => rfl, fun h => absurd h hres⟩
   · rw [heq]
     refine ⟨by split <;> simp, "ok", rfl, by split <;> simp_all, fun h => absurd rfl h,
-      fun _ => ⟨cur, rejectedJob s j cur, hf, hrv, ?_, rfl, rfl, rfl⟩⟩
-    have hn : (rejectedJob s j cur).name = j.name := (findJob_some_name hf : cur.name = j.name)
+      fun _ => ⟨cur, rejectedJob s (rejMsg jc ac) j cur, hf, hrv, ?_, rfl, rfl, rfl⟩⟩
+    have hn : (rejectedJob s (rejMsg jc ac) j cur).name = j.name :=
+      (findJob_some_name hf : cur.name = j.name)
     simp [applyWrite, findJob_setJob, hn]
+  · -- the write is a no-op: the authoritative Job already carries this rejection
+    rw [heq]
+    exact ⟨by split <;> simp, "ok", rfl, by split <;> simp_all, fun h => absurd rfl h,
+      fun _ => ⟨cur, cur, hf, hrv, hf, rejectF_fix_admErr hnoop, rfl, rfl⟩⟩
 
 /-- non-vacuous: Forbid Job `b` with one active Job under limit 1 is rejected and annotated -/
 example :
@@ -54,6 +60,31 @@ example :
     (canStartJob s (jcN 1) jb 1).2 = .error ∧
     (canStartJob s (jcN 1) jb 1).1.calls = s.calls ++ [⟨"reject", "b", "ok"⟩] ∧
     ((findJob (canStartJob s (jcN 1) jb 1).1.jobs "b").map (·.admErr)) = some true := by decide
+
+/-- rejecting a Job that already carries this very rejection (same message, nothing else to
+change) is a no-op at the API: the call is logged "ok" and the verdict is as for an applied
+write, but there is no new resourceVersion, no watch event, and the Jobs are untouched -/
+theorem forbid_rejected_again_noop (s : Sys) (jc : JCV) (j cur : JobV) (ac : Int)
+    (h1 : j.hasPolicy = true) (h2 : j.policy = 1) (h3 : ac + 1 > jc.maxConc)
+    (h4 : startAfterLater j s.clock = false)
+    (hf : findJob s.jobs j.name = some cur) (hrv : cur.rv = j.rv) (hnb : ¬ faultBlocks s)
+    (hfix : rejectF (jc.name, ac) j cur = cur) :
+    (canStartJob s jc j ac).1.calls = s.calls ++ [⟨"reject", j.name, "ok"⟩] ∧
+    ((canStartJob s jc j ac).2 = .skip ↔ nextFault s ≠ "applied-err") ∧
+    (canStartJob s jc j ac).1.jobs = s.jobs ∧ (canStartJob s jc j ac).1.rv = s.rv ∧
+    (canStartJob s jc j ac).1.jobEvs = s.jobEvs ∧ cur.admErr = true := by
+  have hfin : canStartJob s jc j ac = (failWrite s "reject" j.name "ok",
+      if nextFault s = "applied-err" then .error else .skip) := by
+    rcases canStartJob_forbid s jc j ac h1 h2 h3 h4 with ⟨res, _, hwhy, _⟩ |
+        ⟨cur', hf', _, _, hne, _⟩ | ⟨_, _, _, _, _, heq⟩
+    · rcases hwhy with h | h | ⟨c, hc, hne⟩
+      · exact absurd h hnb
+      · rw [hf] at h; cases h
+      · rw [hf] at hc; cases hc; exact absurd hrv hne
+    · rw [hf] at hf'; cases hf'; exact absurd hfix hne
+    · exact heq
+  rw [hfin]
+  refine ⟨rfl, by split <;> simp_all, rfl, rfl, rfl, rejectF_fix_admErr hfix⟩
 
 /-! ### 2. a rejected Job is not started in the same pass -/
 
@@ -418,7 +449,7 @@ example :
 runs" is FALSE across passes.  `b` is rejected (annotation written), then `a` finishes before the
 job controller has made `b` terminal; the next pass lists `b` as queued (`IsQueued` ignores the
 annotation) and starts it.  Also: the rejection's own update event re-triggers the pass, which
-writes the rejection again. -/
+issues the rejection again (identical annotation: a no-op at the API, see the example below). -/
 def histRejectThenStart : List Act :=
   histAB ++ [.workConfig] ++ flush ++ [.workConfig, .finishJob "a"] ++ flush ++ flush
 theorem rejected_then_started_witness :
@@ -430,6 +461,21 @@ theorem rejected_then_started_witness :
     (workConfig s).1.calls = [⟨"start", "b", "ok"⟩] ∧
     (findJob (workConfig s).1.jobs "b").map (fun j => (j.admErr, j.startTime.isSome))
       = some (true, true) := by decide
+
+/-- non-vacuous for `forbid_rejected_again_noop`: the second rejection of `b` (same message) is
+logged "ok" but leaves resourceVersion, Jobs and the watch stream untouched, so nothing re-queues
+the key; the first one was a real update -/
+example :
+    let s1 := runActs {} histAB
+    let s := runActs {} (histAB ++ [.workConfig] ++ flush)
+    (workConfig s1).1.calls = [⟨"reject", "b", "ok"⟩] ∧ (workConfig s1).1.rv = s1.rv + 1 ∧
+    (workConfig s1).1.jobEvs.length = 1 ∧
+    (workConfig s).1.calls = [⟨"reject", "b", "ok"⟩] ∧ (workConfig s).2 = "ok" ∧
+    (workConfig s).1.rv = s.rv ∧ (workConfig s).1.jobEvs = [] ∧
+    (workConfig s).1.jobs.map (fun j => (j.name, j.rv, j.admErr, j.admMsg)) =
+      s.jobs.map (fun j => (j.name, j.rv, j.admErr, j.admMsg)) ∧
+    (findJob s.jobs "b").map (fun j => (j.admErr, j.admMsg)) = some (true, ("c", 1)) ∧
+    (workConfig (workConfig s).1).2 = "idle" := by decide
 
 /-- "once capacity is free and the system is quiet no due Job remains queued": in a reachable
 quiet state (no undelivered events, store handler idle, no faults; then the cache equals the
